@@ -278,7 +278,10 @@ pub fn reflink(infd: &File, outfd: &File) -> Result<bool> {
             Some(libc::EOPNOTSUPP)
                 | Some(libc::EINVAL)
                 | Some(libc::EXDEV)
-                | Some(libc::ETXTBSY) =>
+                | Some(libc::ETXTBSY)
+                // The ioctl itself is unknown to this filesystem or kernel.
+                | Some(libc::ENOTTY)
+                | Some(libc::ENOSYS) =>
                 return Ok(false),
             _ =>
                 return  Err(oserr.into()),
